@@ -177,7 +177,22 @@ int main(int argc, char** argv) {
         }
         ns += dg(v);
         text += js(t);
-        parsed += dg(parse_size(t.c_str()));
+        // parse_size reads the documented grammar  digits[.digits] *blank [KkMmGgTtPpEe][Bb]?  : the short forms are
+        // parsed back in rotating re-spellings (as printed, lower case, no blank, unit letter only, two blanks + lower case)
+        string spelled = t;
+        if (!ib && t.size() > 3 && t.compare(t.size() - 1, 1, "B") == 0 && t[t.size() - 3] == ' ') {
+          string num = t.substr(0, t.size() - 3);
+          char u = t[t.size() - 2];
+          char lu = (char)tolower(u);
+          switch (n % 5) {
+            case 1: spelled = num + " " + string(1, lu) + "b"; break;
+            case 2: spelled = num + string(1, u) + "B"; break;
+            case 3: spelled = num + " " + string(1, u); break;
+            case 4: spelled = num + "  " + string(1, lu) + "b"; break;
+            default: break;
+          }
+        }
+        parsed += dg(parse_size(spelled.c_str()));
         n++;
       }
       vt::J j;
